@@ -39,7 +39,7 @@ REQUIRED = dict(monitors=['sigma-is-sum-of-components', 'component-is-xsec-times
                           'contribution-list-restored', 'store-contributions-equal-model-contrib'],
                 classes=['live:fault-before-evaluation', 'cia:he-zero', 'cia:trace-zero', 'cia:trace-zero-in-some-layers', 'contrib:CIA', 'contrib:Rayleigh', 'contrib:SimpleClouds', 'contrib:FlatMie', 'contrib:LeeMie',
                          'contrib:HydrogenIon', 'model:emission', 'early-exit-observed', 'species>=2', 'restricted-grid',
-                         'live:starts-at-zero', 'live:write-from-zero', 'live:write-to-zero', 'live:write-rescale', 'chemistry:makefree+file', 'live:background-without-scattering-data',
+                         'live:starts-at-zero', 'live:interpolation-mode-switched-between-evaluations', 'live:write-from-zero', 'live:write-to-zero', 'live:write-rescale', 'chemistry:makefree+file', 'live:background-without-scattering-data',
                          'live:contribution-yields-nothing-after-having-yielded', 'rayleigh:species-zero-in-some-layers-only'])
 _rec = {'yields': {}, 'sigma': {}}
 CUT = base.CUT
@@ -502,6 +502,19 @@ def wl_live(ctx, rng):
                 model[n_] = tv
                 writes.append((n_, tv))
                 ctx.observe('live:temperature-written')
+        if rng.random() < 0.3:
+            # the documented global option is changed while the model lives: ``OpacityCache().set_interpolation``
+            # empties the cache, the tables come back as NEW objects in the new mode (here: re-registered, as a reload
+            # from ``xsec_path`` would), and the model's next evaluation has to use them
+            from taurex.cache import OpacityCache
+            cur_mode = spec0.get('interpolation', 'linear')
+            new_mode = 'linear' if cur_mode == 'exp' else 'exp'
+            if new_mode == 'linear' or all(float(np.min(t['xsec'])) > 0.0 for t in spec0['tables'].values()):
+                OpacityCache().set_interpolation(new_mode)
+                spec0 = dict(spec0, interpolation=new_mode)
+                spec = dict(spec, interpolation=new_mode)
+                ops.update(world.install_opacities(spec0))
+                ctx.observe('live:interpolation-mode-switched-between-evaluations')
         if rng.random() < 0.45:
             site = faults.drive_into(ctx, rng, model.model)      # a rejected evaluation between write and evaluation
             if site == 'rejected':
